@@ -42,6 +42,34 @@ class PieceStr(SpecialStr):
     def length(self, ctx):
         return ctx.fresh_bv('textlen', 64)
 
+    def debug_hook(self, ctx):
+        """<str as Debug>::fmt: quotes; \\t \\r \\n \\\\ \\" \\0 short forms; other control characters (and, for non-ASCII text,
+        whatever char::escape_debug decides: grapheme extenders, unprintable code points) as \\u{hex}; the rest verbatim"""
+        out = [('c', '"')]
+        for p in self.pieces:
+            if p[0] == 'c':
+                out.append(('c', rust_str_debug(p[1])[1:-1]))
+            elif p[0] == 's':
+                ch = p[1]
+                done = False
+                for c, esc in (('"', '\\"'), ('\\', '\\\\'), ('\n', '\\n'), ('\r', '\\r'), ('\t', '\\t'), ('\0', '\\0')):
+                    if ctx.decide(ch == ord(c)):
+                        out.append(('r', esc, ch)); done = True; break
+                if done:
+                    continue
+                if ctx.decide(Or(ULT(ch, BitVecVal(0x20, 32)), ch == 0x7f)):
+                    out.append(('x', 'a Rust \\u{..} escape', ch))
+                elif ctx.decide(ULT(ch, BitVecVal(0x80, 32))):
+                    out.append(p)
+                elif ctx.decide(ctx.fresh_bool('escape_debug_escapes_this_code_point')):
+                    out.append(('x', 'a Rust \\u{..} escape', ch))
+                else:
+                    out.append(p)
+            else:
+                raise Unmodelled('Debug of %r piece' % (p[0],))
+        out.append(('c', '"'))
+        return PieceStr(out)
+
     @staticmethod
     def of(x):
         if isinstance(x, PieceStr):
@@ -88,6 +116,32 @@ class PieceStr(SpecialStr):
             return PieceStr(out)
         if name == 'len':
             return ctx.fresh_bv('celltextlen', 64)
+        if name == 'is_empty':
+            return BoolVal(not any(p[0] in ('s', 't', 'k', 'x') or (p[0] in ('c', 'r') and p[1]) for p in self.pieces))
+        if name == 'contains':
+            pat = ctx.deref(args[1])
+            if z3.is_bv(pat):
+                pats = [pat]
+            elif isinstance(pat, (Agg, Seq)):
+                pats = list(pat.f) if isinstance(pat, Agg) else [c.v for c in pat.items]
+            else:
+                t = as_str(ctx, pat).s
+                if t is None or len(t) != 1:
+                    raise Unmodelled('contains(text pattern) on a symbolic cell text')
+                pats = [BitVecVal(ord(t), 32)]
+            outs = []
+            for pc in pats:
+                c = conc(pc)
+                if c is None:
+                    raise Unmodelled('contains(symbolic char)')
+                for p in self.pieces:
+                    if p[0] == 's':
+                        outs.append(p[1] == c)
+                    elif p[0] in ('c', 'r'):
+                        outs.append(BoolVal(chr(c) in p[1]))
+                    else:
+                        raise Unmodelled('contains over an encoder token')
+            return z3.simplify(Or(outs + [BoolVal(False)]))
         raise Unmodelled('%s on a symbolic cell text' % name)
 
 
@@ -138,6 +192,35 @@ class Chunk(SpecialStr):
         if name == 'len':
             return ctx.fresh_bv('chunklen', 64)
         raise Unmodelled('%s on a chunk of encoder output' % name)
+
+
+def rust_str_debug(t):
+    """<str as Debug>::fmt of a concrete text (char::escape_debug_ext with grapheme-extend escaping; approximation of the
+    Unicode tables by Python's unicodedata: categories Cc Cf Cs Co Cn Zl Zp and non-space Zs unprintable, Mn Me extenders)"""
+    import unicodedata
+    out = ['"']
+    for ch in t:
+        o = ord(ch)
+        if ch == '"':
+            out.append('\\"')
+        elif ch == '\\':
+            out.append('\\\\')
+        elif ch == '\n':
+            out.append('\\n')
+        elif ch == '\r':
+            out.append('\\r')
+        elif ch == '\t':
+            out.append('\\t')
+        elif ch == '\0':
+            out.append('\\0')
+        else:
+            cat = unicodedata.category(ch)
+            if cat in ('Cc', 'Cf', 'Cs', 'Co', 'Cn', 'Zl', 'Zp', 'Mn', 'Me') or (cat == 'Zs' and ch != ' '):
+                out.append('\\u{%x}' % o)
+            else:
+                out.append(ch)
+    out.append('"')
+    return ''.join(out)
 
 
 def text_of(v):
@@ -422,6 +505,173 @@ def flatten(pieces):
     return out
 
 
+def atoms_of(pieces):
+    """pieces -> atoms: ('c', one concrete char) | ('s', ch) | ('r', text, ch) | ('x', what, ch) | ('t', token)"""
+    out = []
+    for p in pieces:
+        if p[0] == 'c':
+            out += [('c', c) for c in p[1]]
+        else:
+            out.append(p)
+    return out
+
+
+def value_items(v):
+    """the characters of a row value: concrete chars and symbolic ones, in order"""
+    out = []
+    for p in PieceStr.of(v):
+        if p[0] == 'c':
+            out += [('c', c) for c in p[1]]
+        elif p[0] == 's':
+            out.append(p)
+        else:
+            raise Unmodelled('row value with %r piece' % (p[0],))
+    return out
+
+
+class Scan:
+    """a cursor over atoms with the solver at hand"""
+    def __init__(self, ctx, atoms):
+        self.ctx, self.a, self.i = ctx, atoms, 0
+        self.witness = None
+
+    def peek(self):
+        return self.a[self.i] if self.i < len(self.a) else None
+
+    def lit(self, text):
+        for ch in text:
+            p = self.peek()
+            if p is None or p[0] != 'c' or p[1] != ch:
+                return False
+            self.i += 1
+        return True
+
+    def sym_ok(self, ch, forbidden):
+        bad = Or([ch == ord(c) for c in forbidden if isinstance(c, str)] + [f(ch) for f in forbidden if not isinstance(c, str) and callable(f)] + [BoolVal(False)])
+        return bad
+
+    def json_string(self):
+        """-> (items, error): decoded content of a JSON string at the cursor"""
+        if not self.lit('"'):
+            return None, 'structure: a JSON string is expected'
+        items = []
+        while True:
+            p = self.peek()
+            if p is None:
+                return None, 'structure: unterminated JSON string'
+            self.i += 1
+            if p[0] == 'c':
+                if p[1] == '"':
+                    return items, ''
+                if p[1] == '\\':
+                    esc = '\\'
+                    q = self.peek()
+                    if q is None or q[0] != 'c':
+                        return None, 'escape: dangling backslash'
+                    self.i += 1; esc += q[1]
+                    if q[1] == 'u':
+                        for _ in range(4):
+                            h = self.peek()
+                            if h is None or h[0] != 'c':
+                                return None, 'escape: \\u not followed by four hex digits'
+                            self.i += 1; esc += h[1]
+                    try:
+                        items.append(('c', json.loads('"' + esc + '"')))
+                    except ValueError:
+                        return None, 'escape: %r is not a JSON escape' % esc
+                elif ord(p[1]) < 0x20:
+                    return None, 'escape: raw control character %r in a JSON string' % p[1]
+                else:
+                    items.append(p)
+            elif p[0] == 's':
+                bad = Or(p[1] == ord('"'), p[1] == ord('\\'), ULT(p[1], BitVecVal(0x20, 32)))
+                if self.ctx.check(bad) != z3.unsat:
+                    self.witness = bad
+                    return None, 'escape: a value character that JSON requires to be escaped is written raw'
+                items.append(p)
+            elif p[0] == 'r':
+                chv = self.ctx.model().eval(p[2], model_completion=True).as_long()
+                if self.ctx.check(p[2] != chv) != z3.unsat:
+                    return None, 'escape: replacement text for an undetermined character'
+                try:
+                    dec = json.loads('"' + p[1] + '"')
+                except ValueError:
+                    dec = None
+                if dec != chr(chv):
+                    return None, 'escape: %r is written as %r, which JSON does not decode to it' % (chr(chv), p[1])
+                items.append(('s', p[2]))
+            elif p[0] == 'x':
+                self.witness = BoolVal(True)
+                return None, 'escape: a value character is written as %s, which is not JSON' % p[1]
+            else:
+                return None, 'structure: unexpected %r inside a JSON string' % (p[0],)
+
+    def csv_field(self):
+        """-> (items, terminator, error): one RFC 4180 field at the cursor (terminator ',' or '\\n')"""
+        items = []
+        p = self.peek()
+        if p is not None and p[0] == 'c' and p[1] == '"':
+            self.i += 1
+            while True:
+                p = self.peek()
+                if p is None:
+                    return None, None, 'structure: unterminated quoted field'
+                self.i += 1
+                if p[0] == 'c' and p[1] == '"':
+                    q = self.peek()
+                    if q is not None and q[0] == 'c' and q[1] == '"':
+                        self.i += 1; items.append(('c', '"'))
+                    else:
+                        break
+                elif p[0] == 'c':
+                    items.append(p)
+                elif p[0] == 's':
+                    if self.ctx.check(p[1] == ord('"')) != z3.unsat:
+                        self.witness = p[1] == ord('"')
+                        return None, None, 'quote: a double quote inside a quoted field is not doubled'
+                    items.append(p)
+                else:
+                    return None, None, 'structure: unexpected %r inside a quoted field' % (p[0],)
+        else:
+            while True:
+                p = self.peek()
+                if p is None:
+                    return None, None, 'structure: record not terminated'
+                if p[0] == 'c' and p[1] in ',\n':
+                    break
+                self.i += 1
+                if p[0] == 'c':
+                    if p[1] in '"\r':
+                        return None, None, 'quote: %r in an unquoted field' % p[1]
+                    items.append(p)
+                elif p[0] == 's':
+                    bad = Or([p[1] == ord(c) for c in ',"\n\r'])
+                    if self.ctx.check(bad) != z3.unsat:
+                        self.witness = bad
+                        return None, None, 'quote: a value character that needs quoting (, " CR LF) is written in an unquoted field'
+                    items.append(p)
+                else:
+                    return None, None, 'structure: unexpected %r in a field' % (p[0],)
+        p = self.peek()
+        if p is None or p[0] != 'c' or p[1] not in ',\n':
+            return None, None, 'structure: field not followed by , or newline'
+        self.i += 1
+        return items, p[1], ''
+
+
+def same_items(ctx, got, want):
+    if len(got) != len(want):
+        return False
+    for g, w in zip(got, want):
+        if g[0] != w[0]:
+            return False
+        if g[0] == 'c' and g[1] != w[1]:
+            return False
+        if g[0] == 's' and not g[1].eq(w[1]):
+            return False
+    return True
+
+
 def check_stream(ctx, fmt, names, rows, pieces):
     """-> (ok, reason, solver condition of a witness or None). The expected stream is built from the rows; value pieces
     must occur in order; around them exactly the literal skeleton of the format."""
@@ -519,29 +769,76 @@ def check_stream(ctx, fmt, names, rows, pieces):
             return False, 'skeleton: trailing output', None
         return True, '', None
     if fmt == 'Json':
-        exp_kinds = ['[', 't', ',', 't', ']']
-        lits = {'[': '[', ',': ',', ']': ']'}
-        if len(pieces) != 5 or any((p[0] == 'c') != (k != 't') for p, k in zip(pieces, exp_kinds)):
-            return False, 'structure: stream %r is not [ object , object ]' % ([p[0] if p[0] != 'c' else p[1] for p in pieces],), None
-        for p, k in zip(pieces, exp_kinds):
-            if k != 't' and p[1] != lits[k]:
-                return False, 'structure: literal %r where %r is expected' % (p[1], lits[k]), None
-        for p, row in zip([pieces[1], pieces[3]], rows):
-            ents = p[1].payload
-            if len(ents) != len(row):
-                return False, 'members: the row object has %d member(s) for %d selected columns' % (len(ents), len(row)), None
-            byname = {text_of(k): v for k, v in ents}
+        sc = Scan(ctx, atoms_of(pieces))
+        if not sc.lit('['):
+            return False, 'structure: the document does not start with [', None
+        for ri, row in enumerate(rows):
+            if ri and not sc.lit(','):
+                return False, 'structure: no , between two row objects', None
+            p = sc.peek()
+            if p is not None and p[0] == 't':
+                sc.i += 1
+                ents = p[1].payload
+                if len(ents) != len(row):
+                    return False, 'members: the row object has %d member(s) for %d selected columns' % (len(ents), len(row)), None
+                byname = {text_of(k): v for k, v in ents}
+                for n, v in zip(names, row):
+                    if byname.get(n) is not v and not (text_of(v) is not None and text_of(byname.get(n)) == text_of(v)):
+                        return False, 'members: column %r does not carry its value' % n, None
+                continue
+            # an object written by hand: { "name":"value" , ... }
+            if not sc.lit('{'):
+                return False, 'structure: a row object is expected', None
+            members = {}
+            first = True
+            while not sc.lit('}'):
+                if not first and not sc.lit(','):
+                    return False, 'structure: no , between two members', sc.witness
+                first = False
+                k, e = sc.json_string()
+                if k is None:
+                    return False, e, sc.witness
+                if not sc.lit(':'):
+                    return False, 'structure: no : after a member name', None
+                v, e = sc.json_string()
+                if v is None:
+                    return False, e, sc.witness
+                key = ''.join(x[1] for x in k if x[0] == 'c')
+                if key in members:
+                    return False, 'members: duplicate member %r' % key, None
+                members[key] = v
+            if len(members) != len(row):
+                return False, 'members: the row object has %d member(s) for %d selected columns' % (len(members), len(row)), None
             for n, v in zip(names, row):
-                if byname.get(n) is not v and not (text_of(v) is not None and text_of(byname.get(n)) == text_of(v)):
+                if n not in members or not same_items(ctx, members[n], value_items(v)):
                     return False, 'members: column %r does not carry its value' % n, None
+        if not sc.lit(']') or sc.peek() is not None:
+            return False, 'structure: the document does not end with ] after the last row', None
         return True, '', None
     if fmt == 'Csv':
-        if len(pieces) != 2 or any(p[0] != 't' for p in pieces):
-            return False, 'structure: stream is not record record', None
-        for p, row in zip(pieces, rows):
-            vals = p[1].payload
-            if len(vals) != len(row) or any(a is not b and not (text_of(a) is not None and text_of(a) == text_of(b)) for a, b in zip(vals, row)):
+        sc = Scan(ctx, atoms_of(pieces))
+        for row in rows:
+            p = sc.peek()
+            if p is not None and p[0] == 't':
+                sc.i += 1
+                vals = p[1].payload
+                if len(vals) != len(row) or any(a is not b and not (text_of(a) is not None and text_of(a) == text_of(b)) for a, b in zip(vals, row)):
+                    return False, 'record: the record written for a row is not that row\'s values', None
+                continue
+            fields = []
+            while True:
+                f, term, e = sc.csv_field()
+                if f is None:
+                    return False, e, sc.witness
+                fields.append(f)
+                if term == '\n':
+                    break
+            if len(fields) != len(row) or any(not same_items(ctx, f, value_items(v)) for f, v in zip(fields, row)):
                 return False, 'record: the record written for a row is not that row\'s values', None
+            if len(row) == 1 and not fields[0]:
+                return False, 'record: a record of one empty field must be written as ""', None
+        if sc.peek() is not None:
+            return False, 'structure: trailing output after the last record', None
         return True, '', None
     raise KeyError(fmt)
 
@@ -706,7 +1003,7 @@ def cli_replay_cells(fmt, vals, dup):
 
 
 # ------------------------------------------------------------------------------------------------ family: protocol
-VALUES = ['r0', 'r1', 'a<b>&c', 'q"uo,te', 'x y\'z', 'é€\\', 'tab\there', '{[,]}']
+VALUES = ['r0', 'c\x1bs', 'a<b>&c', 'q"uo,te', 'x\ry\'z', 'e\u0301\u20ac\\', 'tab\there', '{[,]}']
 
 
 def gfv_concrete(ctx, args, callee):
@@ -818,7 +1115,7 @@ def cli_replay_protocol(mode, fmt, nrows, nroots):
             k = 0
             for r in range(nroots):
                 t = os.path.join(d, 't%d' % r); os.mkdir(t); roots.append(t)
-            vals = [v for v in VALUES if '/' not in v][:max(nrows, 2) + 1]
+            vals = [v for v in VALUES if '/' not in v]
             for i, v in enumerate(vals):
                 open(os.path.join(roots[i % nroots], v), 'w').write('x' * i)
             env = {'PATH': os.environ['PATH'], 'HOME': d, 'TZ': 'UTC'}
